@@ -1,9 +1,163 @@
+"""C02, last clause: spelling a boolean attribute's default explicitly does not change the format.
+
+Every valid program is regenerated with every boolean attribute written out ("false"/"true", and a
+mixed-case variant "False"/"TRUE"); the generator must accept it and the generated serializer must
+produce the bytes M10 prescribes (M10 reads booleans as text.lower() == "true", so its answer is the
+same as for the original program by construction).
+"""
+
 import collections
+
+from .. import e3, genpipe, loader, values, wellformed
+from ..xtypes import resolve
+
+STYLES = ("explicit", "mixed")
+
+
+def spell(node, style, env):
+    """Returns a deep copy with boolean attributes spelled out; None if nothing changed."""
+    n = node.copy()
+    changed = [False]
+    f, t = ("false", "true") if style == "explicit" else ("False", "TRUE")
+
+    def walk(x):
+        if x.tag in ("field", "array", "length"):
+            if x.get("name") is not None and x.text is None:
+                if x.get("optional") is None:
+                    x.attrs["optional"] = f
+                    changed[0] = True
+                elif style == "mixed":
+                    x.attrs["optional"] = t if x.get("optional").lower() == "true" else f
+                    changed[0] = True
+        if x.tag == "field" and x.get("length") is not None:
+            try:
+                is_str = resolve(x.get("type"), env).kind == "string"
+            except Exception:  # noqa: BLE001
+                is_str = False
+            if is_str:
+                if x.get("padded") is None:
+                    x.attrs["padded"] = f
+                    changed[0] = True
+                elif style == "mixed":
+                    x.attrs["padded"] = t if x.get("padded").lower() == "true" else f
+        if x.tag == "array":
+            if x.get("delimited") is None:
+                x.attrs["delimited"] = f
+                changed[0] = True
+            else:
+                if style == "mixed":
+                    x.attrs["delimited"] = t if x.get("delimited").lower() == "true" else f
+                if x.get("delimited").lower() == "true" and x.get("trailing-delimiter") is None:
+                    x.attrs["trailing-delimiter"] = t
+                    changed[0] = True
+                elif style == "mixed" and x.get("trailing-delimiter") is not None:
+                    x.attrs["trailing-delimiter"] = t if x.get("trailing-delimiter").lower() == "true" else f
+        if x.tag == "case":
+            if x.get("default") is None:
+                x.attrs["default"] = f
+                changed[0] = True
+            elif style == "mixed":
+                x.attrs["default"] = t
+        for k in x.kids:
+            walk(k)
+
+    walk(n)
+    return n if changed[0] else None
+
+
+_TIER = None
+_UNI = None
+
+
+def _shard(indices):
+    from .c02 import _enc, real_serialize, ref_serialize
+
+    loader.install_shims()
+    counts = collections.Counter()
+    violations, samples = [], []
+    for a in range(0, len(indices), e3.BATCH):
+        chunk = indices[a : a + e3.BATCH]
+        progs = []
+        for slot, (i, style) in enumerate(chunk):
+            p, info = e3.make_program(i, _UNI[i], slot)
+            if info.cls != "valid":
+                continue
+            v = spell(p.node, style, p.env())
+            if v is None:
+                continue
+            p.node = v
+            if wellformed.classify_unit(p.node, p.env())[0] != "valid":
+                raise loader.HarnessError(f"spelling variant of a valid program is not M9-valid: {p.node.xml()}")
+            progs.append((p, info, style))
+        if not progs:
+            continue
+        loaded = genpipe.load_batch([p for p, _, _ in progs])
+        for ld, (p, info, style) in zip(loaded, progs):
+            counts["spelling_programs"] += 1
+            case = {"kind": "spelling", "tier": _TIER, "index": info.index, "style": style}
+            if ld.gen_error is not None:
+                counts["violations_total"] += 1
+                if len(violations) < 10:
+                    violations.append({"key": f"spelling-rejected:{style}:{info.ident}", "what": f"[{info.ident}] with boolean attributes spelled {style}ly is rejected by the generator: {ld.gen_error}\n{p.node.xml()}", "case": case})
+                continue
+            if ld.cls is None:
+                counts["not_loadable"] += 1
+                continue
+            ad = e3.adaptor_for(p)
+            env = p.env()
+            bad = None
+            for val in values.enumerate_values(p.node, env, cap=32, small=True):
+                try:
+                    obj = ad.build(ld.cls, p.node, val)
+                except Exception:  # noqa: BLE001
+                    continue
+                for entry in (False, True):
+                    exp = ref_serialize(env, p.node, val, entry)
+                    if exp[0] != "bytes":
+                        continue
+                    got = real_serialize(ld.cls, obj, entry)
+                    counts["spelling_comparisons"] += 1
+                    if got[0] != "bytes" or got[1] != exp[1]:
+                        shown = got[1].hex() if got[0] == "bytes" else f"{got[1]}: {got[2]}"
+                        bad = f"value {val!r}: serialized {shown}, format prescribes {exp[1].hex()}"
+                        break
+                if bad:
+                    break
+            if bad:
+                counts["violations_total"] += 1
+                if len(violations) < 10:
+                    violations.append({"key": f"spelling-bytes:{style}:{info.ident}", "what": f"[{info.ident}] with boolean attributes spelled {style}ly: {bad}\n{p.node.xml()}", "case": case})
+            elif len(samples) < 1:
+                samples.append({"spelled": p.node.xml()})
+    return counts, violations, samples
 
 
 def run(tier, seed):
-    return collections.Counter(), [], []
+    from .. import par
+
+    global _TIER, _UNI
+    loader.install_shims()
+    _TIER, _UNI = tier, e3.universe(tier)
+    jobs = [(i, s) for i in range(len(_UNI)) for s in STYLES]
+    n = par.WORKERS * 3
+    res = par.pmap(_shard, [jobs[k::n] for k in range(n)])
+    counts = collections.Counter()
+    violations, samples = [], []
+    for c, v, s in res:
+        counts.update(c)
+        violations += v
+        samples += s
+    # one entry per key
+    seen, out = set(), []
+    for v in violations:
+        if v["key"] not in seen:
+            seen.add(v["key"])
+            out.append(v)
+    return counts, out, samples
 
 
 def replay(case):
-    return None
+    global _TIER, _UNI
+    _TIER, _UNI = case["tier"], e3.universe(case["tier"])
+    _, violations, _ = _shard([(int(case["index"]), case["style"])])
+    return violations[0]["what"] if violations else None
